@@ -125,6 +125,8 @@ class C19(Prop):
                     break
                 if name == "match" and o["outcome"] in ("added", "updated") and kv["pre"].startswith("ok:"):
                     for w in o["writes"].split(","):
+                        if w == "-" or b".snap" not in unhx(w.split(":", 1)[1]).rsplit(b"/", 1)[-1]:
+                            continue      # only snapshot files are this property's subject
                         last_value[w.split(":", 1)[1]] = (kv["pre"][3:], kv.get("form", ""))
             for p, (v, form) in last_value.items():
                 if final1.get(p) != v:
